@@ -5,6 +5,9 @@ package otlpmetricgrpc
 import (
 	"context"
 	"sync"
+	"time"
+
+	"go.opentelemetry.io/otel/sdk/metric/metricdata"
 
 	"google.golang.org/grpc"
 	"google.golang.org/grpc/credentials/insecure"
@@ -20,7 +23,7 @@ const vCanStop = false
 
 type vUploader struct {
 	upload      func(context.Context) error
-	stop        func()
+	stop        func() error
 	waitStopped func()
 	close       func()
 	request     proto.Message
@@ -61,19 +64,58 @@ func vCloseAll() {
 	}
 }
 
-func vNewUploader(core *vCore, rc RetryConfig) *vUploader {
-	cfg := oconf.NewGRPCConfig(asGRPCOptions([]Option{WithGRPCConn(vSharedConn()), WithRetry(rc)})...)
+// vTimeoutOpts: the client timeout dimension (d: option absent = default 10 s, p: 30 s, z: 0 = none, q: 30 ms)
+func vTimeoutOpts(to string) []Option {
+	switch to {
+	case "p":
+		return []Option{WithTimeout(30 * time.Second)}
+	case "z":
+		return []Option{WithTimeout(0)}
+	case "q":
+		return []Option{WithTimeout(30 * time.Millisecond)}
+	}
+	return nil
+}
+
+func vNewClient(core *vCore, rc RetryConfig, to string) (*client, oconf.Config) {
+	cfg := oconf.NewGRPCConfig(asGRPCOptions(append([]Option{WithGRPCConn(vSharedConn()), WithRetry(rc)}, vTimeoutOpts(to)...))...)
 	c, err := newClient(context.Background(), cfg)
 	if err != nil {
 		panic(err)
 	}
 	c.msc = vFake{core}
+	return c, cfg
+}
+
+// vExporter: what the `shut` scenario drives — the package's Exporter (Export / Shutdown) over the scripted client.
+type vExporter struct {
+	export   func(context.Context) error
+	shutdown func(context.Context) error
+	close    func()
+}
+
+func vNewExporter(core *vCore, rc RetryConfig, to string) *vExporter {
+	c, cfg := vNewClient(core, rc, to)
+	e, err := newExporter(c, cfg)
+	if err != nil {
+		panic(err)
+	}
+	rm := &metricdata.ResourceMetrics{}
+	return &vExporter{
+		export:   func(ctx context.Context) error { return e.Export(ctx, rm) },
+		shutdown: e.Shutdown,
+		close:    func() {},
+	}
+}
+
+func vNewUploader(core *vCore, rc RetryConfig, to string) *vUploader {
+	c, _ := vNewClient(core, rc, to)
 	rm := &metricpb.ResourceMetrics{ScopeMetrics: []*metricpb.ScopeMetrics{{Metrics: []*metricpb.Metric{{
 		Name: "verif-c14", Data: &metricpb.Metric_Gauge{Gauge: &metricpb.Gauge{DataPoints: []*metricpb.NumberDataPoint{{
 			TimeUnixNano: 2, Value: &metricpb.NumberDataPoint_AsInt{AsInt: 7}}}}}}}}}}
 	return &vUploader{
 		upload:      func(ctx context.Context) error { return c.UploadMetrics(ctx, rm) },
-		stop:        func() {},
+		stop:        func() error { return nil },
 		waitStopped: func() {},
 		close:       func() {},
 		request:     &colmetricpb.ExportMetricsServiceRequest{ResourceMetrics: []*metricpb.ResourceMetrics{rm}},
